@@ -629,6 +629,8 @@ def align_variable_names_with_convention(
                     decorator_list=node.decorator_list,
                     returns=node.returns,
                     type_comment=node.type_comment,
+                    # Type parameters exist from Python 3.12
+                    **({"type_params": node.type_params} if hasattr(node, "type_params") else {}),
                 )
             elif isinstance(node, ast.AsyncFunctionDef):
                 if node.name == substitute:
@@ -642,6 +644,8 @@ def align_variable_names_with_convention(
                     decorator_list=node.decorator_list,
                     returns=node.returns,
                     type_comment=node.type_comment,
+                    # Type parameters exist from Python 3.12
+                    **({"type_params": node.type_params} if hasattr(node, "type_params") else {}),
                 )
             elif isinstance(node, ast.ClassDef):
                 if node.name == substitute:
@@ -654,6 +658,7 @@ def align_variable_names_with_convention(
                     keywords=node.keywords,
                     body=node.body,
                     decorator_list=node.decorator_list,
+                    **({"type_params": node.type_params} if hasattr(node, "type_params") else {}),
                 )
             else:
                 logger.error("Renaming not implemented for node {} of type {}", node, type(node))
